@@ -160,7 +160,7 @@ func main() {
 					continue
 				}
 				done[filename] = true
-				in := &instr{info: p.TypesInfo, pkg: p.Name}
+				in := &instr{info: p.TypesInfo, pkg: p.Name, fsFile: isFSFile(filename)}
 				if in.file(f) {
 					writeFile(fset, filename, f)
 				}
@@ -185,7 +185,7 @@ func main() {
 		if perr != nil {
 			return nil // the compiler will report it
 		}
-		in := &instr{info: nil, pkg: f.Name.Name}
+		in := &instr{info: nil, pkg: f.Name.Name, fsFile: isFSFile(path)}
 		if in.file(f) {
 			fmt.Fprintf(os.Stderr, "instrument: %s handled syntactically (no map-order / range-chan rewrite)\n", path)
 			writeFile(fset, path, f)
@@ -202,6 +202,15 @@ func main() {
 func fatal(err error) {
 	fmt.Fprintln(os.Stderr, "instrument:", err)
 	os.Exit(2)
+}
+
+func isFSFile(filename string) bool {
+	for _, suf := range fsYieldFiles {
+		if strings.HasSuffix(filepath.ToSlash(filename), "/"+suf) {
+			return true
+		}
+	}
+	return false
 }
 
 func skipPkg(path string) bool {
@@ -253,6 +262,59 @@ type instr struct {
 	counter int
 	changed bool
 	tmp     int
+	fsFile  bool // yields before filesystem calls are enabled for this file
+	noFS    int  // > 0 while inside a function body that takes a mutex (never park under a lock)
+}
+
+// files in which goroutines race on the directory tree itself (validator vs healer, zip workers):
+// there a yield is also inserted before statements that call into the filesystem
+var fsYieldFiles = []string{"pwr/archive_healer.go", "pwr/validator.go", "archiver/zip.go", "archiver/archiver.go"}
+
+var fsCalls = map[string]bool{"Lstat": true, "Stat": true, "Remove": true, "RemoveAll": true, "Mkdir": true, "MkdirAll": true,
+	"Symlink": true, "Readlink": true, "OpenFile": true, "Open": true, "Create": true, "WriteFile": true, "ReadFile": true,
+	"Rename": true, "Chmod": true, "Truncate": true}
+
+func takesLock(b *ast.BlockStmt) bool {
+	found := false
+	ast.Inspect(b, func(x ast.Node) bool {
+		if _, ok := x.(*ast.FuncLit); ok {
+			return false
+		}
+		if c, ok := x.(*ast.CallExpr); ok {
+			if sel, ok := c.Fun.(*ast.SelectorExpr); ok && (sel.Sel.Name == "Lock" || sel.Sel.Name == "RLock") {
+				found = true
+			}
+		}
+		return !found
+	})
+	return found
+}
+
+// callsFS reports whether the expressions of n (excluding nested blocks and function literals)
+// call os.X / screw.X for a filesystem operation.
+func (in *instr) callsFS(n ast.Node) bool {
+	if n == nil || !in.fsFile || in.noFS > 0 {
+		return false
+	}
+	found := false
+	ast.Inspect(n, func(x ast.Node) bool {
+		if found {
+			return false
+		}
+		switch v := x.(type) {
+		case *ast.FuncLit, *ast.BlockStmt:
+			return false
+		case *ast.CallExpr:
+			if sel, ok := v.Fun.(*ast.SelectorExpr); ok {
+				if id, ok := sel.X.(*ast.Ident); ok && (id.Name == "os" || id.Name == "screw") && fsCalls[sel.Sel.Name] {
+					found = true
+					return false
+				}
+			}
+		}
+		return true
+	})
+	return found
 }
 
 func (in *instr) site() string {
@@ -273,9 +335,17 @@ func (in *instr) file(f *ast.File) bool {
 			in.fn = recvName(fd.Recv.List[0].Type) + "." + fd.Name.Name
 		}
 		in.counter = 0
-		in.block(fd.Body)
+		in.funcBody(fd.Body)
 	}
 	return in.changed
+}
+
+// funcBody instruments the body of a function or function literal.
+func (in *instr) funcBody(b *ast.BlockStmt) {
+	if b == nil {
+		return
+	}
+	in.block(b)
 }
 
 func recvName(e ast.Expr) string {
@@ -315,7 +385,7 @@ func (in *instr) funcLits(n ast.Node) {
 	ast.Inspect(n, func(x ast.Node) bool {
 		switch v := x.(type) {
 		case *ast.FuncLit:
-			in.block(v.Body)
+			in.funcBody(v.Body)
 			return false
 		case *ast.BlockStmt:
 			// nested blocks reached through statements are processed elsewhere
@@ -357,13 +427,49 @@ func (in *instr) block(b *ast.BlockStmt) {
 	b.List = in.stmts(b.List)
 }
 
+// lockCall reports whether s is a statement of the form x.<name>() for one of the given names.
+func lockCall(s ast.Stmt, names ...string) bool {
+	es, ok := s.(*ast.ExprStmt)
+	if !ok {
+		return false
+	}
+	c, ok := es.X.(*ast.CallExpr)
+	if !ok {
+		return false
+	}
+	sel, ok := c.Fun.(*ast.SelectorExpr)
+	if !ok {
+		return false
+	}
+	for _, n := range names {
+		if sel.Sel.Name == n {
+			return true
+		}
+	}
+	return false
+}
+
 func (in *instr) stmts(list []ast.Stmt) []ast.Stmt {
 	var out []ast.Stmt
+	// never park while a mutex is held: between x.Lock() and x.Unlock() in the same statement list
+	// (or until the end of the list when the unlock is deferred) no filesystem yields are inserted
+	locked := 0
 	for _, s := range list {
+		if lockCall(s, "Unlock", "RUnlock") && locked > 0 {
+			locked--
+			in.noFS--
+		}
 		pre, repl, post := in.stmt(s)
 		out = append(out, pre...)
 		out = append(out, repl)
 		out = append(out, post...)
+		if lockCall(s, "Lock", "RLock") {
+			locked++
+			in.noFS++
+		}
+	}
+	for ; locked > 0; locked-- {
+		in.noFS--
 	}
 	return out
 }
@@ -387,7 +493,7 @@ func (in *instr) stmt(s ast.Stmt) (pre []ast.Stmt, repl ast.Stmt, post []ast.Stm
 			_, r, _ := in.stmt(v.Else)
 			v.Else = r
 		}
-		if communicates(v.Init) || communicates(v.Cond) {
+		if communicates(v.Init) || communicates(v.Cond) || in.callsFS(v.Init) || in.callsFS(v.Cond) {
 			pre = append(pre, in.yield())
 		}
 	case *ast.ForStmt:
@@ -425,7 +531,7 @@ func (in *instr) stmt(s ast.Stmt) (pre []ast.Stmt, repl ast.Stmt, post []ast.Stm
 	case *ast.GoStmt:
 		st.goStmts++
 		if fl, ok := v.Call.Fun.(*ast.FuncLit); ok {
-			in.block(fl.Body)
+			in.funcBody(fl.Body)
 			fl.Body.List = append([]ast.Stmt{in.yield()}, fl.Body.List...)
 		}
 		for _, a := range v.Call.Args {
@@ -440,7 +546,7 @@ func (in *instr) stmt(s ast.Stmt) (pre []ast.Stmt, repl ast.Stmt, post []ast.Stm
 	default:
 		// simple statements: expression, assignment, declaration, return, inc/dec ...
 		in.funcLits(s)
-		if communicates(s) {
+		if communicates(s) || in.callsFS(s) {
 			pre = append(pre, in.yield())
 		}
 	}
